@@ -51,6 +51,27 @@ pub fn generate(rng: &mut Rng, tier: &str) -> Scenario {
     sc
 }
 
+/// sign bits of the NaNs of a value, in a traversal order that does not depend on map order
+fn nan_signs(v: &toml::Value) -> Vec<bool> {
+    fn go(v: &toml::Value, out: &mut Vec<bool>) {
+        match v {
+            toml::Value::Float(f) if f.is_nan() => out.push(f.is_sign_negative()),
+            toml::Value::Array(a) => a.iter().for_each(|x| go(x, out)),
+            toml::Value::Table(t) => {
+                let mut ks: Vec<&String> = t.keys().collect();
+                ks.sort();
+                for k in ks {
+                    go(&t[k.as_str()], out);
+                }
+            }
+            _ => {}
+        }
+    }
+    let mut out = Vec::new();
+    go(v, &mut out);
+    out
+}
+
 pub const DUP_KEY: u32 = 0x100;
 
 /// append a second entry for the first key of the first non-empty string-keyed map found
@@ -319,7 +340,8 @@ fn exec_a(sc: &Scenario, verbose: bool, out: &mut RunOut) {
     }
 
     // clause 3: try_from gives the same tree as serializing to text and parsing that text
-    let text_tree = text.as_ref().and_then(|t| catch_unwind(AssertUnwindSafe(|| toml::from_str::<toml::Value>(t).ok())).ok().flatten()).map(|v| Tree::from_value(&v));
+    let text_value = text.as_ref().and_then(|t| catch_unwind(AssertUnwindSafe(|| toml::from_str::<toml::Value>(t).ok())).ok().flatten());
+    let text_tree = text_value.as_ref().map(Tree::from_value);
     for name in ["toml::Value::try_from", "toml::Table::try_from"] {
         if !sc.only.is_empty() && !sc.wants(name) {
             continue;
@@ -335,6 +357,16 @@ fn exec_a(sc: &Scenario, verbose: bool, out: &mut RunOut) {
                 out.note(&format!("{t:?}"));
                 if let Some(tt) = &text_tree {
                     out.stats.inc("oracle.try_from_vs_text");
+                    // the model tree unifies NaNs; the two encoding routes must also agree on the sign
+                    let signs_a = nan_signs(&v);
+                    let signs_b = text_value.as_ref().map(nan_signs).unwrap_or_default();
+                    if signs_a != signs_b && t.eq_unordered(tt) {
+                        out.violate(
+                            "C13/3",
+                            format!("C13/try_from-differs-from-text-route/nan-sign/ser={name}"),
+                            format!("{name} and the text route disagree on the sign of a NaN: {signs_a:?} vs {signs_b:?}"),
+                        );
+                    }
                     if !t.eq_unordered(tt) {
                         out.violate(
                             "C13/3",
@@ -352,7 +384,14 @@ fn exec_a(sc: &Scenario, verbose: bool, out: &mut RunOut) {
                     return;
                 }
                 // "gives the same tree ... for every type": if the text route succeeded on a must-succeed value, so must try_from
-                if must && text_tree.is_some() && name == "toml::Value::try_from" {
+                // (text success implies a table root, so Table::try_from is held to it as well; no `must`:
+                // the clause speaks of every type the text route can serialize)
+                // Reference text route for this direction: toml::to_string (toml_edit's serializers accept
+                // a struct variant at the root, which toml's document serializer documents as unsupported).
+                let toml_text_ok = catch_unwind(AssertUnwindSafe(|| toml::to_string(&w).is_ok())).unwrap_or(false);
+                // Enum roots are left to the must-succeed class: which variant kinds each root serializer
+                // accepts differs by design (struct / tuple variants at the root are documented as unsupported).
+                if text_tree.is_some() && toml_text_ok && !dup && (must || ok_root(ty)) {
                     out.violate("C13/3", format!("C13/try_from-fails/ser={name}"), format!("{name} fails ({msg}) although serializing to text and parsing it succeeds"));
                 }
             }
